@@ -18,6 +18,11 @@ def run(R, job):
     class TgRepr(Tg):
         def _repr_html_(self): return "<never-rendered-after-tagify/>"
 
+    class TgMeta(core.MetadataNode):
+        "a metadata node that also has tagify(): still an object with a tagify() method"
+        def __init__(self, res): self.res = res
+        def tagify(self): return self.res
+
     def dep(i):
         return core.HTMLDependency(f"d{i}", f"1.{i}")
 
@@ -53,13 +58,13 @@ def run(R, job):
         kids = []
         for _ in range(r.choice([0, 1, 2, 3, 4])):
             if r.random() < 0.35:
-                kids.append((Tg if r.random() < 0.7 else TgRepr)(expansion(d)))
+                kids.append(r.choice([Tg, Tg, Tg, TgRepr, TgMeta])(expansion(d)))
             else:
                 kids.append(leaf(d))
         return core.Tag(r.choice(["div", "span", "p", "ul"]), *kids, _add_ws=r.random() < 0.6)
 
     def subst(x):
-        if isinstance(x, Tg):
+        if isinstance(x, (Tg, TgMeta)):
             e = x.res
             if isinstance(e, core.TagList):
                 return [y for k in e for y in subst(k)]
